@@ -30,6 +30,7 @@ type GenCfg struct {
 	Ancient                bool   // dates before the year 1000
 	PNegPrice              float64 // rate of negative quotes
 	MinTxn                 int
+	DailyPrices            bool // a quote on every day of the span
 	BusyDay                bool // hundreds of transactions on one day (code that goes parallel above a threshold)
 	UnicodeDesc            bool // descriptions full of multi-byte characters
 }
@@ -41,7 +42,7 @@ func DefaultGen() GenCfg {
 var comPool = []string{"CHF", "USD", "EUR", "AAPL", "BTC", "GLD", "X1", "Ærø", "usd"} // "usd" and "USD" are different commodities
 var segPool = []string{"Bank", "Cash", "Broker", "Checking", "Savings", "US", "CH", "Food", "Rent", "Tax", "Salary", "Misc", "A1", "B2", "bank", "k2", "A01", "Bank2", "Übrig", "日本", "Сбережения", "Ärztekostenübernahme"} // "A1"/"A01" differ in a leading zero only; "Bank" is a string prefix of "Bank2"
 var roots = []string{"Assets", "Liabilities", "Equity", "Income", "Expenses"}
-var descPool = []string{"Groceries", "Salary", "Rent", "Transfer", "Buy", "Sell", "Fee", "Dividend", "Tax", "Gift", "Coffee & cake", "Zürich trip", " Padded", "Trailing ", "two  spaces", "\n  Dinner on the next line", "30% off", "discount 100%", "x", ""}
+var descPool = []string{"Groceries", "Salary", "Rent", "Transfer", "Buy", "Sell", "Fee", "Dividend", "Tax", "Gift", "Coffee & cake", "Zürich trip", " Padded", "Trailing ", "two  spaces", "\n  Dinner on the next line", "30% off", "discount 100%", "mounted as E:\\", "back\\\\slash \\n", "ends in two \\\\", "x", ""}
 
 var anchors = []Day{D(2019, 12, 20), D(2020, 2, 20), D(2021, 6, 25), D(2022, 12, 28), D(2023, 9, 30), D(2024, 2, 27), D(2020, 12, 24), D(2024, 12, 26)} // the last two: the turn of a leap year
 
@@ -155,6 +156,9 @@ func gen1(r *simrt.Rand, c GenCfg) *Journal {
 	if r.P(0.2) {
 		g.span = r.Range(1, 40)
 	}
+	if c.DailyPrices {
+		g.span = r.Range(c.MaxSpan/2, c.MaxSpan)
+	}
 	// opens: all on or shortly after the start, before any use
 	openDay := map[string]Day{}
 	for _, a := range g.accs {
@@ -239,6 +243,13 @@ func gen1(r *simrt.Rand, c GenCfg) *Journal {
 				ws := g.start + Day(r.Intn(g.span+1))
 				maxLen := map[int]int{IvDaily: 10, IvWeekly: 60, IvMonthly: 300, IvQuarterly: 500}[iv]
 				we := ws + Day(r.Intn(maxLen+1))
+				dust := c.InexactAccrual && r.P(0.2)
+				if dust {
+					// a small amount over many periods: each period's share truncates to 0.0, the first
+					// period carries everything
+					iv = IvDaily
+					we = ws + Day(r.Range(40, 150))
+				}
 				acc := cands[r.Intn(len(cands))]
 				ok := true
 				for _, b := range dir.Bookings {
@@ -250,7 +261,15 @@ func gen1(r *simrt.Rand, c GenCfg) *Journal {
 				}
 				if ok {
 					n := int64(len(partition(ws, we, iv, 0)))
-					if !c.InexactAccrual || r.P(0.7) {
+					if dust {
+						for k := range dir.Bookings {
+							q := Q(r.Range(1, 30)) * QScale / 10
+							if dir.Bookings[k].Qty < 0 {
+								q = -q
+							}
+							dir.Bookings[k].Qty = q
+						}
+					} else if !c.InexactAccrual || r.P(0.7) {
 						for k := range dir.Bookings {
 							// exact multiples of n at one decimal place
 							unit := int64(QScale / 10)
@@ -468,7 +487,7 @@ func genPrices(g *genState, j *Journal, ps []Posting) {
 	for i := 1; i < len(g.coms); i++ {
 		c := g.coms[i]
 		inv := r.P(0.3)
-		daily := r.P(0.2)
+		daily := r.P(0.2) || g.c.DailyPrices
 		days := []Day{first}
 		for k := 0; k < len(allDays) && k < 4; k++ {
 			if r.P(0.5) {
@@ -480,7 +499,7 @@ func genPrices(g *genState, j *Journal, ps []Posting) {
 			days = []Day{g.start + Day(r.Range(1, 1+g.span/2))}
 		}
 		if daily {
-			for d := days[0] + 1; d <= g.start+Day(g.span) && len(days) < 60; d++ {
+			for d := days[0] + 1; d <= g.start+Day(g.span) && (len(days) < 60 || g.c.DailyPrices); d++ {
 				days = append(days, d)
 			}
 		} else {
@@ -632,7 +651,7 @@ func RandLayout(r *simrt.Rand, j *Journal, maxFiles int) *Layout {
 		name := path.Join(d, fmt.Sprintf("f%d.knut", f))
 		if common {
 			// the same few file names in every directory, as in a tree with one folder per year
-			alt := path.Join(d, []string{"prices.knut", "transactions.knut", "accounts.knut", "main.knut"}[r.Intn(4)])
+			alt := path.Join(d, []string{"prices.knut", "transactions.knut", "accounts.knut", "main.knut", "2020[q1].knut", "what?.knut", "all*.knut"}[r.Intn(7)]) // the last three: legal names that look like shell patterns
 			if !used[alt] {
 				name = alt
 			}
